@@ -128,8 +128,26 @@ class Bus:
         return fr
 
     def deliver_later(self, node, fr):
+        q = node.__dict__.setdefault('deferred', [])
+        if q or (self.sim.drive_depth and getattr(node, 'in_handler', 0)):
+            # the driver is waiting for a lock in the middle of a handler of this very stack: its (only) receive thread is busy, the frame
+            # (and every later one, in order) waits
+            q.append(fr)
+            if len(q) == 1:
+                self.sim.after(2e-5, self._flush_deferred, node)
+            return
         node.pending -= 1
         self.deliver(node, fr)
+
+    def _flush_deferred(self, node):
+        q = node.deferred
+        while q:
+            if self.sim.drive_depth and getattr(node, 'in_handler', 0):
+                self.sim.after(2e-5, self._flush_deferred, node)
+                return
+            fr = q.pop(0)
+            node.pending -= 1
+            self.deliver(node, fr)
 
     def deliver(self, node, fr, reentrant=False):
         self.delivered.append((self.sim.now, node.name, fr.idx))
@@ -174,6 +192,7 @@ class StackNode:
         self.rx_state = None
         self.rx_busy = False
         self.reentrant_depth = 0
+        self.in_handler = 0         # > 0 while the driver executes a handler of this stack
         self.notify_exc = collections.Counter()    # exceptions raised by ecu.notify (contained by the listener)
         self.notify_exc_samples = []
         before = set(bus.sim.states)
@@ -253,10 +272,12 @@ class StackNode:
             self.rxq.put(fr)
             return
         self.reentrant_depth += 1
+        self.in_handler += 1
         try:
             self.handle(fr)
         finally:
             self.reentrant_depth -= 1
+            self.in_handler -= 1
 
     def handle(self, fr):
         self.rx_frames += 1
